@@ -43,16 +43,25 @@ import random
 
 PROP = "C11"
 RULE = ("cases = (seed) -> one random base node term (call / keyword call / bare List, Tuple, Set, Dict / Alias / DataNode, "
-        "0-3 referenced keys out of 6 names, nesting depth <= 3) and 10-14 derived terms (16 derivation kinds) plus identical "
+        "0-3 referenced keys out of 6 names, nesting depth <= 3) and up to 14 derived terms (21 derivation kinds) plus identical "
         "rebuild, copy, pickle and cloudpickle round trips; each pair is built with the real classes and, when == or tokens "
         "agree, evaluated on 3 random value assignments; non-trivial = the base term has a container or a reference and at "
         "least one derived pair was judged; distinct = distinct base terms")
 ASSUMPTIONS = ["the tagged functions f/g/h digest their arguments order- and type-sensitively, so different arguments give different results",
                "python == on plain values (tuples of strings, lists, dicts, sets) is the equality of results"]
-BUDGET = {"quick": 90, "thorough": 600}
+BUDGET = {"quick": 75, "thorough": 600}
 FLOORS = {
-    "quick": {"evaluations": 1, "distinct_nontrivial": 1},
-    "thorough": {"evaluations": 1, "distinct_nontrivial": 1},
+    # measured on the unchanged tree (quick, 5 seeds): 2200 cases, ~1790 distinct non-trivial, ~22.7k pairs, ~11.7k judged,
+    # ~2.3k derived pairs judged (~600 once List/Tuple/Dict tokens keep their order: the floor must hold in both worlds)
+    "quick": {"evaluations": 1000, "distinct_nontrivial": 800, "max_skipped_fraction": 0.2,
+              "counters": {"pairs": 10000, "identical_pairs": 4000, "identical_pairs_equal_and_same_token": 4000,
+                           "pairs_judged": 4500, "pairs_judged_equal_values": 4000, "derived_pairs_judged": 250,
+                           "pairs_differing_by_container_order_or_pairing_only": 1000, "pairs_different_identity": 4500}},
+    "thorough": {"evaluations": 18000, "distinct_nontrivial": 13000, "max_skipped_fraction": 0.2,
+                 "counters": {"pairs": 180000, "identical_pairs": 75000, "identical_pairs_equal_and_same_token": 75000,
+                              "pairs_judged": 80000, "pairs_judged_equal_values": 75000, "derived_pairs_judged": 4500,
+                              "pairs_differing_by_container_order_or_pairing_only": 18000,
+                              "pairs_different_identity": 85000}},
 }
 EXHAUSTIVE_SPACE = None
 LEVEL_NOTE = "trusts python equality of plain values and the harness term evaluator is not even needed: both sides are evaluated by dask"
@@ -397,18 +406,32 @@ def d_ref_form(rng, t):
 
 
 def d_lit_change(rng, t):
-    p, s = _pick(rng, t, lambda s: s[0] == "lit")
+    """change a literal (raw or DataNode-wrapped) to a near value: other type with equal ==, its str(), list<->tuple"""
+    p, s = _pick(rng, t, lambda s: s[0] in ("lit", "q"))
     if s is None:
         return None
     v = s[1]
     near = {("int", 1): [True, 1.0, 2], ("int", 0): [False, 0.0], ("str", "a"): [b"a", "b"], ("bytes", b"a"): ["a"],
             ("int", 2): [2.0, 3], ("NoneType", None): [0, "None"], ("bool", True): [1, 1.0], ("int", 7): [7.0, "7"]}
     try:
-        cand = near.get((type(v).__name__, v))
+        cand = list(near.get((type(v).__name__, v)) or [])
     except TypeError:
-        cand = None
-    new = rng.choice(cand) if cand and rng.random() < 0.7 else rng.choice([x for x in SCALARS if not (type(x) is type(v) and x == v)])
-    return _replace(t, p, ("lit", new))
+        cand = []
+    if type(v) is list:
+        cand += [tuple(v), v + [1], v[::-1] if v[::-1] != v else v + [2]]
+    elif type(v) is tuple:
+        cand += [list(v), v + (1,)]
+    elif type(v) is dict:
+        cand += [{k2: k for k, k2 in v.items()} if all(isinstance(x, (int, str)) for x in v.values()) else {"a": 2}, list(v.items())]
+    if not isinstance(v, str):
+        cand.append(str(v))
+        cand.append(repr(v))
+    cand = [c for c in cand if not (type(c) is type(v) and c == v)]
+    if cand and rng.random() < 0.75:
+        new = rng.choice(cand)
+    else:
+        new = rng.choice([x for x in SCALARS if not (type(x) is type(v) and x == v)])
+    return _replace(t, p, ("lit", new) if s[0] == "lit" else ("q", new, s[2]))
 
 
 def d_renest(rng, t):
@@ -632,7 +655,7 @@ def run_case(case, ctx):
         if order_only:
             label = LABEL_ORDER
         else:
-            label = "%s:%s:equal-or-same-token-but-different-values" % (name, type(a).__name__ if type(a) is type(b) else "mixed-classes")
+            label = "derived-pair:%s:equal-or-same-token-but-different-values" % name
         ctx.violation(label,
                       "%s (%s): a=%r b=%r are %s but a(values)=%r, b(values)=%r for values %r"
                       % (name, how, a, b, how, va[i], vb[i], {repr(k): v for k, v in assigns[i].items()}),
